@@ -20,7 +20,8 @@ type spec[T comparable] struct {
 	unordered bool // source is a Go map / hash set: any order, each element once
 	infinite  bool // never exhausted (Generate): want holds the first elements
 	// bounded: instead of every H/N string, use the family "h1 HasNext calls before odd
-	// elements, h2 before even ones, then HasNext HasNext Next(blind) HasNext Next(blind)"
+	// elements, h2 before even ones (0..3 each; 0 = Next without HasNext), then HasNext HasNext
+	// Next(blind) HasNext Next(blind)"
 	// (large maps, where 2^(2n+4) strings are out of reach)
 	bounded bool
 }
@@ -29,7 +30,11 @@ type outcome struct {
 	redundantH int
 	blindN     int
 	nexts      int
+	unguarded  int // Next calls while elements remain that were not preceded by a HasNext
 }
+
+// maxUnguarded bounds the Next calls without a preceding HasNext per call string (set by the tier).
+var maxUnguarded = 2
 
 // fail helpers keep the keys short: <producer>/<kind>
 func (s *spec[T]) fail(x *mc.X, kind, format string, args ...any) {
@@ -104,22 +109,27 @@ func drive[T comparable](x *mc.X, s spec[T]) {
 	}
 	doN := func() {
 		if refHas() {
+			sfx, how := "", "after a true HasNext"
+			if !pending {
+				oc.unguarded++
+				sfx, how = "-unguarded", "without a preceding HasNext (elements remain)"
+			}
 			v, pv := catchVal(it.Next)
 			x.Logf("Next -> %v", v)
 			if pv != nil {
 				if e.trip {
 					s.fail(x, "nonterm", "Next #%d does not return", pos)
 				}
-				s.fail(x, "next-panic", "Next #%d after a true HasNext panicked: %v (reference sequence %v)", pos, pv, want)
+				s.fail(x, "next-panic"+sfx, "Next #%d %s panicked: %v (reference sequence %v)", pos, how, pv, want)
 			}
 			if s.unordered {
 				if remaining[v] == 0 {
-					s.fail(x, "next-value", "Next #%d returned %v which is not among the remaining elements (reference multiset %v)", pos, v, want)
+					s.fail(x, "next-value"+sfx, "Next #%d returned %v which is not among the remaining elements (reference multiset %v)", pos, v, want)
 				}
 				remaining[v]--
 			} else if !s.infinite || pos < len(want) {
 				if v != want[pos] {
-					s.fail(x, "next-value", "Next #%d returned %v, reference %v (reference sequence %v)", pos, v, want[pos], want)
+					s.fail(x, "next-value"+sfx, "Next #%d %s returned %v, reference %v (reference sequence %v)", pos, how, v, want[pos], want)
 				}
 			}
 			pos++
@@ -139,7 +149,7 @@ func drive[T comparable](x *mc.X, s spec[T]) {
 		oc.blindN++
 	}
 	if s.bounded {
-		h1, h2 := 1+x.Choose(3, "HasNext calls before odd elements"), 1+x.Choose(3, "HasNext calls before even elements")
+		h1, h2 := x.Choose(4, "HasNext calls before odd elements (0..3)"), x.Choose(4, "HasNext calls before even elements (0..3)")
 		for i := 0; i < len(want); i++ {
 			n := h1
 			if i%2 == 1 {
@@ -155,14 +165,35 @@ func drive[T comparable](x *mc.X, s spec[T]) {
 		doN()
 		doH()
 		doN()
+	} else if x.Choose(2, "family(0=every H/N string,1=each Next with or without HasNext)") == 1 {
+		// every subset of the elements is taken with a Next that no HasNext precedes (Next;Next,
+		// HasNext;Next;Next, ...), then the exhausted tail
+		n := len(want)
+		if s.infinite {
+			n = 4
+		}
+		for i := 0; i < n; i++ {
+			if x.Choose(2, "HasNext before this Next") == 1 {
+				doH()
+			}
+			doN()
+		}
+		if !s.infinite {
+			doH()
+			doN()
+			doH()
+		}
 	} else {
 		steps := 2*len(want) + 4
 		if s.infinite {
 			steps = 7
 		}
 		for i := 0; i < steps; i++ {
+			// Next is offered after a true HasNext, on the exhausted iterator (must panic), and - up to
+			// maxUnguarded times per string - without a preceding HasNext while elements remain
+			// (every iterator of the library guards its own next, so this is a legal use: Next;Next)
 			op := 0
-			if pending || !refHas() {
+			if pending || !refHas() || oc.unguarded < maxUnguarded {
 				op = x.Choose(2, "op(0=HasNext,1=Next)")
 			}
 			if op == 0 {
@@ -181,7 +212,8 @@ func drive[T comparable](x *mc.X, s spec[T]) {
 		x.ObserveInt(len(want))
 	}
 	// non-trivial: the pattern repeated a HasNext and consumed something, or hit the exhausted iterator
-	if (oc.redundantH > 0 && oc.nexts > 0) || oc.blindN > 0 {
+	x.ObserveInt(oc.unguarded)
+	if (oc.redundantH > 0 && oc.nexts > 0) || oc.blindN > 0 || oc.unguarded > 0 {
 		x.NonTrivial()
 	}
 	if oc.blindN > 0 {
@@ -189,5 +221,8 @@ func drive[T comparable](x *mc.X, s spec[T]) {
 	}
 	if oc.redundantH > 0 {
 		x.Tag("pattern:repeated-HasNext")
+	}
+	if oc.unguarded > 0 {
+		x.Tag("pattern:Next-without-HasNext")
 	}
 }
